@@ -34,6 +34,11 @@ def e_insert(rng, text, lang, protect_top=0):
     if rng.random() < 0.75:
         inserts += [i for i in after_jump if rng.random() < 0.35]  # each of them on its own: a file has few, and each is a distinct situation
         inserts += rng.sample(before_brace, min(len(before_brace), rng.randint(0, 2)))
+    # a physical line that opens several blocks (compact layout): a line above AND below it - the function gets taller, not deeper
+    dense = [i for i, ln in enumerate(lines, 1) if lo <= i <= n and ln.count("{") >= 2]
+    for i in dense:
+        if rng.random() < 0.7:
+            inserts += [i, i + 1] if i + 1 <= n else [i]
     nonascii_first = rng.random() < 0.6
     if nonascii_first and lo <= n:
         inserts.append(lo)
@@ -184,6 +189,8 @@ def make_base(rng, idx):
         L = rng.randint(2, 4)
         for lang in ("py", "ts", "rs"):
             funcs = [{"name": "fn%d_%s_%d" % (idx, lang, j), "style": rng.choice(["func", "method"]),
+                      # (brace languages: sometimes two body lines per physical line - a function may be deep without being tall)
+                      "layout": rng.choice([None, None, "pairs", "body-line"]) if lang != "py" else None,
                       "block": ctrl.no_lone_if_in_else(ctrl.gen_chain(rng, ctrl.kinds_for(lang), rng.choice([L - 1, L, L, L + 1])))} for j in range(rng.randint(2, 5))]
             text = ctrl.render(lang, funcs, prefix="b%d" % idx)[0]
             # some function headers already carry a suppression (bare or naming the rule): an edit that does not touch the directive's words must not revive the finding
